@@ -493,6 +493,7 @@ func resolveSpecific(before []ast.Stmt, arg ast.Expr) []string {
 		fatalf("surface: checkPermission: unsupported specific-address argument at %s", fset.Position(arg.Pos()))
 	}
 	src := ""
+	var inline *ast.CompositeLit
 	for _, s := range before {
 		as, ok := s.(*ast.AssignStmt)
 		if !ok || len(as.Lhs) < 1 || len(as.Rhs) != 1 || exprString(as.Lhs[0]) != id.Name {
@@ -504,7 +505,19 @@ func resolveSpecific(before []ast.Stmt, arg ast.Expr) []string {
 		}
 		if r, n := calleeName(c); r == "json" && n == "Marshal" && len(c.Args) == 1 {
 			src = exprString(c.Args[0])
+			inline, _ = c.Args[0].(*ast.CompositeLit) // json.Marshal([]string{constant.X.Address().String(), ...})
 		}
+	}
+	if inline != nil {
+		var out []string
+		for _, el := range inline.Elts {
+			n, ok := addrConstName(el)
+			if !ok {
+				fatalf("surface: specific addresses: element is not constant.X.Address().String() at %s", fset.Position(el.Pos()))
+			}
+			out = append(out, n)
+		}
+		return out
 	}
 	if src == "" {
 		fatalf("surface: checkPermission: cannot find json.Marshal producing %s (at %s)", id.Name, fset.Position(arg.Pos()))
